@@ -407,6 +407,18 @@ fn run_world(rep: &Report, hk: Hk, issuer_alg: Alg) {
             }
         }
     });
+    // the same space once more in reverse order on a single thread: every composition is now preceded by
+    // verifications of the *other* sessions (verifier-side state surviving between calls would show here)
+    let mut l = Local::default();
+    for &(ji, li, ki) in items.iter().rev() {
+        let j = &w.sessions[ji];
+        let lists = lists_for(j);
+        let (lab, list) = &lists[li];
+        for fmt in codec::FMTS {
+            compose(j, list, lab, &w.kbs[ki], exps[0].0, exps[0].1, fmt, &mut l);
+        }
+    }
+    rep.merge(l);
     rep.scope_done(json!({"scope": format!("holder key {} / issuer alg {}: 4 credentials x {} disclosure lists x {} KB-JWT items x 7 expectations x 2 formats", hk.name(), issuer_alg.name(), lists_for(&w.sessions[0]).len(), w.kbs.len()), "compositions": items.len() * 14}));
     rep.sample(json!({"credential": "A", "list": "S'_plus_one_appended", "kb": "honest:A:S':https://v.example:n-0S6_WzA2Mj", "expectation": [AUDS[0], NONCES[0]], "fmt": "json", "model": "MustReject (sd_hash covers another disclosure list)"}));
 }
